@@ -61,10 +61,23 @@ def readProof (w ps : Nat) (bs : Bytes) : Option (List Nat) :=
     if readNumber bs endOfData (packLen w ps * 8 - endOfData) ≠ 0 then none
     else some nonces
 
-/-- `Proof::scaled_difficulty(scale)`: `hash` = blake2b-256 of the packed nonces -/
-def scaledDifficulty (scale : Nat) (packed : Bytes) : Nat :=
-  let h := ofBE ((Blake2b.hash 32 packed).take 8)
-  let d := (scale * 2^64) / (max 1 h)
-  min d (2^64 - 1)
+/-- `self.hash().to_u64()`: the first 8 bytes, big endian, of blake2b-256 of the packed nonces
+(`Proof::write` in hash mode writes `pack_nonces()` only) -/
+def hashPrefix (packed : Bytes) : Nat := ofBE ((Blake2b.hash 32 packed).take 8)
+
+/-- The arithmetic of `Proof::scaled_difficulty(scale)` as written, `h = self.hash().to_u64()`:
+`let diff = ((scale as u128) << 64) / (max(1, h) as u128); min(diff, u64::MAX as u128) as u64`
+with the u128 shift and the final `as u64` truncation explicit. -/
+def scaledDiffU128 (scale h : Nat) : Nat :=
+  let diff := ((scale % 2^64) * 2^64 % 2^128) / (max 1 h)
+  (min diff (2^64 - 1)) % 2^64
+
+/-- The definition the property fixes: `floor(scale · 2^64 / max(1, h))`, saturating at `u64::MAX`
+(exact rational arithmetic in `Nat`). `Props/C05.lean difficulty_exact`: equal to `scaledDiffU128`
+for every `scale < 2^64`. -/
+def diffExact (scale h : Nat) : Nat := min ((scale * 2^64) / (max 1 h)) (2^64 - 1)
+
+/-- `Proof::scaled_difficulty(scale)`: a function of the packed nonces -/
+def scaledDifficulty (scale : Nat) (packed : Bytes) : Nat := scaledDiffU128 scale (hashPrefix packed)
 
 end GV.Pow
